@@ -482,6 +482,148 @@ class Literals(Family):
         return Result('tiny' if tiny else 'value', True)
 
 
+AP_OPERANDS = {
+    's': 2.0, 't': -0.5,
+    'v': [1.0, 2.0], 'w': [3.0, -1.0],
+    'M': [[1.0, 2.0], [3.0, 4.0]], 'N': [[0.0, 1.0], [1.0, 1.0]],
+}
+AP_ORDER = ['s', 'v', 'w', 'M', 'N', 't']
+
+
+def _ap_mul(a, b):
+    """product of two operands by the documented rules (scalar, vector, matrix); raises ValueError on a shape error"""
+    da = 0 if not isinstance(a, list) else (2 if isinstance(a[0], list) else 1)
+    db = 0 if not isinstance(b, list) else (2 if isinstance(b[0], list) else 1)
+    if da == 0 and db == 0:
+        return a * b
+    if da == 0:
+        return [[a * x for x in r] for r in b] if db == 2 else [a * x for x in b]
+    if db == 0:
+        return [[x * b for x in r] for r in a] if da == 2 else [x * b for x in a]
+    if da == 1 and db == 1:
+        if len(a) != len(b):
+            raise ValueError('shape')
+        return sum(x * y for x, y in zip(a, b))
+    if da == 2 and db == 1:
+        if len(a[0]) != len(b):
+            raise ValueError('shape')
+        return [sum(x * y for x, y in zip(r, b)) for r in a]
+    if da == 1 and db == 2:
+        if len(a) != len(b):
+            raise ValueError('shape')
+        return [sum(a[i] * b[i][j] for i in range(len(a))) for j in range(len(b[0]))]
+    if len(a[0]) != len(b):
+        raise ValueError('shape')
+    return [[sum(a[i][k] * b[k][j] for k in range(len(b))) for j in range(len(b[0]))] for i in range(len(a))]
+
+
+class ArrayProducts(Family):
+    """E6: '*' is left-associative over scalar, vector and matrix operands too"""
+    name = 'E6_array_products'
+    timeout = 20.0
+    rule = ('every chain a1*a2*...*an, n <= 4, of operands from {scalars s, t; vectors v, w; 2x2 matrices M, N} written flat, '
+            'with variables and with literals: the value is the left-to-right product (dot product for two vectors, matrix-vector, '
+            'vector-matrix, matrix-matrix), i.e. the same as the fully left-parenthesised form; a chain in which a '
+            'vector*vector product is followed by a further vector operand is refused as ambiguous (documented); the explicitly '
+            'left-parenthesised form is never refused for that reason')
+
+    def cases(self, tier):
+        for n in range(2, 5):
+            for combo in itertools.product(range(len(AP_ORDER)), repeat=n):
+                for form in ('var', 'lit'):
+                    if form == 'lit' and n == 4 and tier == 'quick':
+                        continue
+                    yield (combo, form)
+
+    def text(self, combo, form, paren):
+        def one(k):
+            name = AP_ORDER[k]
+            if form == 'var':
+                return name
+            val = AP_OPERANDS[name]
+            return R_num(val)
+        parts = [one(k) for k in combo]
+        if not paren:
+            return '*'.join(parts)
+        out = parts[0]
+        for q in parts[1:]:
+            out = '(%s*%s)' % (out, q)
+        return out
+
+    def describe(self, case):
+        combo, form = case
+        return {'flat': self.text(combo, form, False), 'left-parenthesised': self.text(combo, form, True)}
+
+    def check(self, case):
+        combo, form = case
+        vals = [AP_OPERANDS[AP_ORDER[k]] for k in combo]
+        # oracle: left fold; the documented ambiguity rule for the FLAT form
+        expected, ambiguous = None, False
+        try:
+            acc = vals[0]
+            dotted = False
+            for b in vals[1:]:
+                b_is_vec = isinstance(b, list) and not isinstance(b[0], list)
+                a_is_vec = isinstance(acc, list) and not isinstance(acc[0], list)
+                if b_is_vec and dotted:
+                    ambiguous = True
+                if b_is_vec and a_is_vec:
+                    dotted = True
+                acc = _ap_mul(acc, b)
+            expected = ('val', acc)
+        except ValueError:
+            expected = ('err', 'shape')
+        V = {k: (MathArray(v) if isinstance(v, list) else v) for k, v in AP_OPERANDS.items()}
+        outs = []
+        for paren in (False, True):
+            s = self.text(combo, form, paren)
+            try:
+                val, _ = X.evaluator(s, V, {}, {}, max_array_dim=2)
+                outs.append(('val', to_plain(val)))
+            except CE.CalcError as e:
+                outs.append(('err', type(e).__name__, str(e)[:120]))
+            except MITxError as e:
+                outs.append(('err', type(e).__name__, str(e)[:120]))
+            except Exception as e:
+                return Result('raw', True, viol('E6:raw-exception', '%r raised %s: %s' % (s, type(e).__name__, e)))
+        flat, par = outs
+
+        def same(a, b):
+            if isinstance(a, list) != isinstance(b, list):
+                return False
+            if isinstance(a, list):
+                return len(a) == len(b) and all(same(x, y) for x, y in zip(a, b))
+            return abs(a - b) <= 1e-9 * max(1.0, abs(a), abs(b))
+        where = 'flat %r / parenthesised %r' % (self.text(combo, form, False), self.text(combo, form, True))
+        if expected[0] == 'err':
+            for o in outs:
+                if o[0] == 'val':
+                    return Result('value-for-shape-error', True,
+                                  viol('E6:value-for-shape-error', '%s: the shapes do not multiply but a value came back: %r' % (where, o[1])))
+            return Result('shape-error', True)
+        if par[0] != 'val' or not same(par[1], expected[1]):
+            return Result('paren-wrong', True,
+                          viol('E6:left-parenthesised-product-wrong', '%s: parenthesised form gives %r, left-to-right product is %r'
+                               % (where, par, expected[1]), expected[1], par))
+        if ambiguous:
+            if flat[0] == 'val' and not same(flat[1], expected[1]):
+                return Result('ambiguous-wrong-value', True,
+                              viol('E6:flat-product-wrong', '%s: flat form gives %r, left-to-right product is %r' % (where, flat, expected[1]),
+                                   expected[1], flat))
+            return Result('ambiguous:' + flat[0], False)
+        if flat[0] != 'val' or not same(flat[1], expected[1]):
+            return Result('flat-wrong', True,
+                          viol('E6:flat-product-differs-from-left-parenthesised',
+                               '%s: flat form gives %r, left-to-right product is %r' % (where, flat, expected[1]), expected[1], flat))
+        return Result('value', True)
+
+
+def R_num(val):
+    if isinstance(val, list):
+        return '[' + ','.join(R_num(x) for x in val) + ']'
+    return ('(%r)' % val) if val < 0 else repr(val)
+
+
 FRONT = [
     ('', None, 'nan'), ('   ', None, 'nan'), (' \t ', None, 'nan'), ('\n', None, 'nan'),
     ('[1,2]', 0, 'parse'), ('[1,2]', 1, 'val'), ('[[1,2],[3,4]]', 1, 'parse'), ('[[1,2],[3,4]]', 2, 'val'),
@@ -535,5 +677,6 @@ def families(tier):
         Chains(),
         Names(),
         Literals(),
+        ArrayProducts(),
         FrontDoor(),
     ]
